@@ -6,7 +6,7 @@ TRACE  (1) nodes returned by seeded queries (filters included, negative indices,
            the same object), path() = NormPath!NormalizedPath(location), the path
            re-queried returns exactly that node, values()/paths()/items() agree;
        (2) range-compressed, exhaustive in the thorough tier: for every code
-           point U+0000..U+10FFFF except surrogates, alone and embedded ('a?b') as
+           point U+0000..U+10FFFF except surrogates, alone, embedded ('a?b'), last ('a?') and first ('?b') in
            a member name: how path() spells it and whether the path re-queries;
            consecutive code points with the same outcome are grouped and TLC checks
            each claimed range with a universally quantified formula.
@@ -27,12 +27,13 @@ def _cp_outcome(cp: int):
     ok_exact = True
     ok_requery = True
     form = None
-    for name in (ch, "a" + ch + "b"):
+    # alone, embedded, at the very end and at the very start of a name (anchored regular expressions and
+    # first / last character special cases tell these apart)
+    for name, pre, post in ((ch, "$['", "']"), ("a" + ch + "b", "$['a", "b']"), ("a" + ch, "$['a", "']"), (ch + "b", "$['", "b']")):
         doc = {name: 1, "zz": [name]}
         nodes = jp.find("$.*", doc)
         node = nodes[0]
         path = node.path()
-        pre, post = ("$['", "']") if name == ch else ("$['a", "b']")
         if not (path.startswith(pre) and path.endswith(post)):
             return ("malformed", False, False)
         body = path[len(pre): len(path) - len(post)]
@@ -73,6 +74,7 @@ def run(chk: core.Check, tier: str, seed: int) -> None:
     n_q = 3000 if tier == "quick" else 40000
     from .. import probes  # noqa: PLC0415
     nd_env = probes.make_env(jp, [], [], nondeterministic=True)
+    prev_doc = {"a": [{"a": [1, {"b": 2}]}, [3]], "b": {"a": {"a": 0}}}
     for k in range(n_q):
         names = gen.NASTY_NAMES if k % 2 == 0 else gen.PLAIN_NAMES
         d = gen.rand_doc(rng, depth=rng.randint(1, 4), width=rng.randint(1, 4), names=names, p_container=0.75)
@@ -81,7 +83,22 @@ def run(chk: core.Check, tier: str, seed: int) -> None:
         q = qg.query(depth=1, allow_filter=True) if k % 3 else "$" + rng.choice(["", "", "..*", "..[-1]", "..[::-1]", "[*][-1]", "..[?@]", ".*.*", "..a", "..[0]"])      # ("$": the root node itself)
         try:
             ed = core.enc_value(d)
-            nodes = (nd_env if k % 4 == 1 else jp).find(q, d)
+            if k % 3 == 2:
+                # the nodes of a compiled query that was used before: an evaluation over ANOTHER document abandoned after its
+                # first node (find_one, a finditer dropped half-way) must leave nothing of that document behind
+                cq = (nd_env if k % 4 == 1 else jp).compile(q)
+                try:
+                    cq.find_one(prev_doc)
+                    it = iter(cq.finditer(prev_doc))
+                    next(it, None)
+                    next(it, None)
+                    del it
+                except Exception:  # noqa: BLE001
+                    pass
+                nodes = cq.find(d)
+            else:
+                nodes = (nd_env if k % 4 == 1 else jp).find(q, d)
+            prev_doc = d
         except Exception:  # noqa: BLE001
             continue
         lists_ok = (nodes.values() == [n.value for n in nodes] and nodes.paths() == [n.path() for n in nodes]
